@@ -993,4 +993,404 @@ theorem C03_exec_le_one_of_chain (cfg : NCfg) (sub : NSub) (sc : Script) (hR : N
     have h2 := Forest.chain_related hchain a (hin a (by simp)) b (hin b (by simp))
     rw [h1] at h2; cases h2
 
+
+/-! ### what one trigger call returns (P5) on a machine without local declarations -/
+
+namespace Pass2
+open Pass
+
+section
+variable {ts : List NTrans}
+
+theorem Adds.unique {g1 g2 : List SOffer} {s s' : NSt} (h1 : Adds ts g1 s s') (h2 : Adds ts g2 s s') : g1 = g2 := by
+  obtain ⟨a, ea, ra⟩ := h1
+  obtain ⟨b, eb, rb⟩ := h2
+  have : a = b := List.append_cancel_left (ea.symm.trans eb)
+  subst this
+  simpa using (ra []).symm.trans (rb [])
+
+theorem Adds.offers {g : List SOffer} {s s' : NSt} (h : Adds ts g s s') {seg : List GEv}
+    (e : s'.glog = s.glog ++ seg) : sOffers ts seg [] = g := by
+  obtain ⟨a, ea, ra⟩ := h
+  have : a = seg := List.append_cancel_left (ea.symm.trans e)
+  subst this
+  simpa using ra []
+
+/-- the ghost log grows by a segment with at least one offer -/
+def NE (ts : List NTrans) (s s' : NSt) : Prop := ∃ g, g ≠ [] ∧ Adds ts g s s'
+
+theorem NE.of_left {g g' : List SOffer} {a b c : NSt} (hne : g ≠ []) (h1 : Adds ts g a b) (h2 : Adds ts g' b c) :
+    NE ts a c := ⟨g ++ g', by simp [hne], h1.trans h2⟩
+
+theorem NE.sil_l {a b c : NSt} (h1 : Adds ts [] a b) (h2 : NE ts b c) : NE ts a c := by
+  obtain ⟨g, hne, h⟩ := h2
+  exact ⟨g, hne, h1.sil_l h⟩
+
+end
+
+section
+variable (sub : NSub) (sc : Script) (cfg : NCfg) {ts : List NTrans}
+
+theorem ninvoke_noerr (hR : NoRaise sc) (hC : NoCmds sc) (slot : Slot) (x : Ctx) (c : Nat) (s : NSt) (e : Exc)
+    (s' : NSt) : ninvoke sub sc cfg slot x c s ≠ .err e s' := by
+  obtain ⟨b, hb⟩ := hR c (s.count c)
+  simp only [ninvoke, hC c, nrunCmds, hb]
+  intro h; cases h
+
+theorem ncallbacks_noerr (hR : NoRaise sc) (hC : NoCmds sc) (slot : Slot) (x : Ctx) :
+    ∀ (cbs : List Nat) (s : NSt) (e : Exc) (s' : NSt), ncallbacks sub sc cfg slot x cbs s ≠ .err e s'
+  | [], s, e, s' => by simp [ncallbacks]
+  | c :: cs, s, e, s' => by
+    unfold ncallbacks
+    cases hi : ninvoke sub sc cfg slot x c s with
+    | oof => simp [bind_oof]
+    | err e1 s1 => exact absurd hi (ninvoke_noerr sub sc cfg hR hC slot x c s e1 s1)
+    | ok b s1 => rw [bind_ok]; exact ncallbacks_noerr hR hC slot x cs s1 e s'
+
+/-- an exception out of the candidate loop comes after at least one offer -/
+theorem ntry_err_ne (hC : NoCmds sc) (scope : Scope) (x : Ctx) : ∀ (cands : List (TRef × NTrans)) (s : NSt),
+    Post (fun _ _ => True) (NE ts s) (ntry sub sc cfg scope x cands s)
+  | [], s => trivial
+  | (tr, t) :: r, s => by
+    unfold ntry
+    refine Post.bind (nexecute_post2 (ts := ts) sub sc cfg hC scope x tr t s) ?_ ?_
+    · rintro s' ⟨b, hb⟩
+      exact ⟨[off ts tr b], by simp, hb⟩
+    · intro b s1 hb
+      cases b with
+      | true => trivial
+      | false =>
+        simp only [Bool.false_eq_true, if_false]
+        have hb' : Adds ts [off ts tr false] s ({ s1 with result := some false } : NSt) :=
+          hb.sil_r (Adds.of_glog rfl)
+        refine Post.mono (ntry_err_ne hC scope x r _) (fun _ _ _ => trivial) ?_
+        rintro s' ⟨g, _, hg⟩
+        exact NE.of_left (by simp) hb' hg
+
+theorem nprocess_err_ne (hR : NoRaise sc) (hC : NoCmds sc) (scope : Scope) (x : Ctx) (cands : List (TRef × NTrans))
+    (s : NSt) : Post (fun _ _ => True) (NE ts s) (nprocess sub sc cfg scope x cands s) := by
+  unfold nprocess
+  cases h1 : ncallbacks sub sc cfg .prepareEvent x cfg.prepareEvent s with
+  | oof => trivial
+  | err e s1 => exact absurd h1 (ncallbacks_noerr sub sc cfg hR hC _ x _ s e s1)
+  | ok u s1 =>
+    rw [bind_ok]
+    have q : Adds ts [] s s1 := ncallbacks_sil sub sc cfg hC _ x _ s s1 (by rw [h1]; rfl)
+    exact Post.mono (ntry_err_ne sub sc cfg hC scope x cands s1) (fun _ _ _ => trivial) (fun _ h => NE.sil_l q h)
+
+/-- a pass over registered states either does nothing at all or makes at least one offer -/
+theorem tnLoop_idle (hR : NoRaise sc) (hC : NoCmds sc) (scope : Scope) (x : Ctx) (ev : Nat) (ts : List NTrans) :
+    ∀ (ps done : List SPath) (s : NSt), (∀ p ∈ ps, (getState cfg.root scope p).isSome = true) →
+    Post (fun _ s' => s' = s ∨ NE ts s s') (NE ts s) (tnLoop sub sc cfg scope x ev ts ps done s)
+  | [], done, s, _ => Or.inl rfl
+  | p :: ps, done, s, hgs => by
+    have hgs' : ∀ q ∈ ps, (getState cfg.root scope q).isSome = true := fun q hq => hgs q (List.mem_cons_of_mem _ hq)
+    unfold tnLoop
+    simp only []
+    split
+    · exact tnLoop_idle hR hC scope x ev ts ps done s hgs'
+    · rename_i hcond
+      have hcne : ncandidates scope.pre ev ts p ≠ [] := by
+        intro h; apply hcond; right; rw [h]; rfl
+      split
+      · rename_i hnone
+        have := hgs p (by simp)
+        rw [hnone] at this; cases this
+      · have hpost := nprocess_post2 (ts := ts) sub sc cfg hC scope x p _ s ncandidates_ok
+          (ncandidates_sorted _ _ _ _) hcne
+        have herr := nprocess_err_ne (ts := ts) sub sc cfg hR hC scope x (ncandidates scope.pre ev ts p) s
+        cases hn : nprocess sub sc cfg scope x (ncandidates scope.pre ev ts p) s with
+        | oof => trivial
+        | err e s1 => rw [hn] at herr; exact herr
+        | ok u s1 =>
+          rw [hn] at hpost
+          obtain ⟨g, ha, _, ⟨o, hl, _⟩, _⟩ := hpost
+          have hne : g ≠ [] := by intro h; rw [h] at hl; cases hl
+          rw [bind_ok]
+          refine Post.mono (tnLoop_idle hR hC scope x ev ts ps _ s1 hgs') ?_ ?_
+          · rintro _ s' (rfl | ⟨g', _, hg'⟩)
+            · exact Or.inr ⟨g, hne, ha⟩
+            · exact Or.inr (NE.of_left hne ha hg')
+          · rintro s' ⟨g', _, hg'⟩
+            exact NE.of_left hne ha hg'
+
+/-- outcome of a pass / of `_trigger_event_nested` that ended normally -/
+def PassOk (ts : List NTrans) (s : NSt) (tmp : Option Bool) (s' : NSt) : Prop :=
+  ∃ offs, Adds ts offs s s' ∧ (∀ o, offs.getLast? = some o → tmp = some o.executed) ∧
+    (offs.getLast? = none → tmp = none ∧ s' = s)
+
+theorem triggerNested_p5 (hR : NoRaise sc) (hC : NoCmds sc) (x : Ctx) (ev : Nat) (ts : List NTrans) (s : NSt)
+    (hcok : ConfOK cfg.states s.conf = true) (hres0 : s.result = none) :
+    Post (PassOk ts s) (NE ts s) (triggerNested sub sc cfg cfg.root x ev ts s) := by
+  unfold triggerNested
+  have hrg : s.conf.reduceGet cfg.root.pre = .ok (some s.conf) := by
+    show s.conf.reduceGet [] = _
+    simp [Forest.reduceGet]
+  rw [hrg]
+  simp only []
+  cases hro : resolveOrder s.conf with
+  | none => trivial
+  | some order =>
+    simp only []
+    have hperm := resolveOrder_perm hro
+    have hgs : ∀ p ∈ order, (getState cfg.root cfg.root p).isSome = true := by
+      intro p hp
+      obtain ⟨d, kids, hw, _⟩ := ConfOK_walk hcok (hperm.mem_iff.mp hp)
+      have hw' : cfg.root.states.walk p = some (d, kids) := hw
+      simp [getState, hw']
+    have hidle := tnLoop_idle sub sc cfg hR hC cfg.root x ev ts order [] s hgs
+    have hmain := tnLoop_main sub sc cfg hC cfg.root x ev ts order [] s
+    cases hl : tnLoop sub sc cfg cfg.root x ev ts order [] s with
+    | oof => trivial
+    | err e s1 => rw [hl] at hidle; exact hidle
+    | ok u s1 =>
+      rw [hl] at hidle hmain
+      obtain ⟨offs, ha, _, _, _, hr⟩ := hmain
+      rw [bind_ok]
+      refine ⟨offs, ha, ?_, ?_⟩
+      · intro o ho; rw [hr, ho]
+      · intro ho
+        rw [ho] at hr
+        refine ⟨hr.trans hres0, ?_⟩
+        rcases hidle with h | ⟨g, hne, hg⟩
+        · exact h
+        · have := hg.unique ha
+          rw [List.getLast?_eq_none_iff.mp ho] at this
+          exact absurd this hne
+
+theorem ten_p5 (hR : NoRaise sc) (hC : NoCmds sc) (x : Ctx) (ev : Nat) (hno : cfg.states.noEvents = true) (s : NSt)
+    (hlen : s.conf.len = 1) (hcok : ConfOK cfg.states s.conf = true) (hres0 : s.result = none) :
+    Post (fun r s' => PassOk ((alookup ev cfg.events).getD []) s (summarize r) s')
+      (NE ((alookup ev cfg.events).getD []) s) (ten sub sc cfg x ev cfg.root s.conf [] s) := by
+  obtain ⟨k, v, hkv⟩ := Forest.len_one hlen
+  rw [hkv, ten_global_only cfg sub sc x ev hno k v (hkv ▸ hcok) s]
+  cases hal : alookup ev cfg.events with
+  | none =>
+    exact ⟨[], Adds.refl s, by simp, fun _ => ⟨by simp [summarize], rfl⟩⟩
+  | some ts =>
+    simp only [Option.getD_some]
+    refine Post.bind (triggerNested_p5 sub sc cfg hR hC x ev ts s hcok hres0) (fun _ h => h) ?_
+    intro tmp s2 h
+    show PassOk ts s (summarize _) s2
+    cases tmp <;> simpa [summarize] using h
+
+/-- outcome of the `try:` part, normal end -/
+def BodyOk (cfg : NCfg) (ev : Nat) (ts : List NTrans) (s : NSt) (b : Bool) (s' : NSt) : Prop :=
+  ∃ offs, Adds ts offs s s' ∧ (∀ o, offs.getLast? = some o → b = o.executed) ∧
+    (offs.getLast? = none → cerLoop cfg ev (buildStateList [] s.conf).listify = .ok b ∧ s'.conf = s.conf)
+
+/-- outcome of the `try:` part, exception -/
+def BodyErr (cfg : NCfg) (ev : Nat) (ts : List NTrans) (s : NSt) (e : Exc) (s' : NSt) : Prop :=
+  ∃ offs, Adds ts offs s s' ∧
+    (offs = [] → cerLoop cfg ev (buildStateList [] s.conf).listify = .err e ∧ s'.conf = s.conf)
+
+theorem triggerEventBody_p5 (hR : NoRaise sc) (hC : NoCmds sc) (x : Ctx) (ev : Nat) (hno : cfg.states.noEvents = true)
+    (s : NSt) (hlen : s.conf.len = 1) (hcok : ConfOK cfg.states s.conf = true) (hres0 : s.result = none) :
+    (∀ b s', triggerEventBody sub sc cfg x ev s = .ok b s' → BodyOk cfg ev ((alookup ev cfg.events).getD []) s b s') ∧
+    (∀ e s', triggerEventBody sub sc cfg x ev s = .err e s' → BodyErr cfg ev ((alookup ev cfg.events).getD []) s e s') := by
+  have hten := ten_p5 sub sc cfg hR hC x ev hno s hlen hcok hres0
+  unfold triggerEventBody
+  cases ht : ten sub sc cfg x ev cfg.root s.conf [] s with
+  | oof => constructor <;> intro _ _ h <;> simp [bind_oof] at h
+  | err e1 s1 =>
+    rw [ht] at hten
+    obtain ⟨g, hne, hg⟩ := hten
+    constructor
+    · intro _ _ h; simp [bind_err] at h
+    · intro e s' h
+      simp only [bind_err, Res.err.injEq] at h
+      obtain ⟨rfl, rfl⟩ := h
+      exact ⟨g, hg, fun h => absurd h hne⟩
+  | ok r s1 =>
+    rw [ht] at hten
+    obtain ⟨offs, ha, h1, h2⟩ := hten
+    rw [bind_ok]
+    cases hl : offs.getLast? with
+    | some o =>
+      have hs := h1 o hl
+      rw [hs]
+      simp only [checkEventResult, bind_ok]
+      constructor
+      · intro b s' h
+        simp only [Res.ok.injEq] at h
+        obtain ⟨rfl, rfl⟩ := h
+        refine ⟨offs, ha.sil_r (Adds.of_glog rfl), ?_, ?_⟩
+        · intro o' ho'; rw [hl] at ho'; cases ho'; rfl
+        · intro hn; rw [hl] at hn; cases hn
+      · intro e s' h; cases h
+    | none =>
+      obtain ⟨hs, rfl⟩ := h2 hl
+      have hoffs : offs = [] := List.getLast?_eq_none_iff.mp hl
+      subst hoffs
+      rw [hs]
+      simp only [checkEventResult]
+      cases hcer : cerLoop cfg ev (buildStateList [] s1.conf).listify with
+      | oof => constructor <;> intro _ _ h <;> simp [bind_oof] at h
+      | ok b1 =>
+        simp only [bind_ok]
+        constructor
+        · intro b s' h
+          simp only [Res.ok.injEq] at h
+          obtain ⟨rfl, rfl⟩ := h
+          exact ⟨[], Adds.of_glog rfl, by simp, fun _ => ⟨hcer, rfl⟩⟩
+        · intro e s' h; cases h
+      | err e1 =>
+        simp only [bind_err]
+        constructor
+        · intro b s' h; cases h
+        · intro e s' h
+          simp only [Res.err.injEq] at h
+          obtain ⟨rfl, rfl⟩ := h
+          exact ⟨[], Adds.refl _, fun _ => ⟨hcer, rfl⟩⟩
+
+theorem nfinalize_sil (hC : NoCmds sc) (x : Ctx) (s s' : NSt) (h : nfinalize sub sc cfg x s = some s') :
+    Adds ts [] s s' ∧ s'.conf = s.conf := by
+  unfold nfinalize at h
+  have h0 : Adds ts [] s (s.emitG (.fin x.tag (confMask cfg s.conf))) :=
+    Adds.emitG s _ (by intro tr h; cases h) (by intro tr h; cases h)
+  split at h
+  · rename_i u s1 hc; cases h
+    have hv := ncallbacks_view sub sc cfg hC _ x _ _ s' (by rw [hc]; rfl)
+    exact ⟨h0.sil_r (Adds.of_view hv), congrArg View.conf hv⟩
+  · rename_i e s1 hc; cases h
+    have hv := ncallbacks_view sub sc cfg hC _ x _ _ s' (by rw [hc]; rfl)
+    exact ⟨h0.sil_r (Adds.of_view hv), congrArg View.conf hv⟩
+  · cases h
+
+/-- without `on_exception` handlers `_trigger_event` passes the outcome of its `try:` part on, after `finally:` -/
+theorem ntriggerEvent_p5 (hC : NoCmds sc) (hex : cfg.onException = []) (x : Ctx) (ev : Nat) (s : NSt) :
+    (∀ b s'', ntriggerEvent sub sc cfg x ev s = .ok b s'' →
+      ∃ s', triggerEventBody sub sc cfg x ev { s with result := none } = .ok b s' ∧ Adds ts [] s' s'' ∧
+        s''.conf = s'.conf) ∧
+    (∀ e s'', ntriggerEvent sub sc cfg x ev s = .err e s'' →
+      ∃ s', triggerEventBody sub sc cfg x ev { s with result := none } = .err e s' ∧ Adds ts [] s' s'' ∧
+        s''.conf = s'.conf) := by
+  unfold ntriggerEvent
+  simp only [hex]
+  cases hb : triggerEventBody sub sc cfg x ev { s with result := none } with
+  | oof => constructor <;> intro _ _ h <;> cases h
+  | ok b1 s1 =>
+    simp only []
+    cases hf : nfinalize sub sc cfg x s1 with
+    | none => constructor <;> intro _ _ h <;> cases h
+    | some s2 =>
+      obtain ⟨q, hc⟩ := nfinalize_sil (ts := ts) sub sc cfg hC x s1 s2 hf
+      constructor
+      · intro b s'' h
+        simp only [Res.ok.injEq] at h
+        obtain ⟨rfl, rfl⟩ := h
+        exact ⟨s1, rfl, q, hc⟩
+      · intro _ _ h; cases h
+  | err e1 s1 =>
+    simp only []
+    cases hf : nfinalize sub sc cfg x s1 with
+    | none => constructor <;> intro _ _ h <;> cases h
+    | some s2 =>
+      obtain ⟨q, hc⟩ := nfinalize_sil (ts := ts) sub sc cfg hC x s1 s2 hf
+      constructor
+      · intro _ _ h; cases h
+      · intro e s'' h
+        simp only [Res.err.injEq] at h
+        obtain ⟨rfl, rfl⟩ := h
+        exact ⟨s1, rfl, q, hc⟩
+
+end
+
+section
+variable (sub : NSub) (sc : Script) (cfg : NCfg)
+
+theorem napiTrigger_p5 (hR : NoRaise sc) (hC : NoCmds sc)
+    (hq : cfg.queued = false) (hno : cfg.states.noEvents = true) (hex : cfg.onException = [])
+    (qmax ev : Nat) (s : NSt) (hlen : s.conf.len = 1) (hcok : ConfOK cfg.states s.conf = true) (hidle : s.queue = []) :
+    (∀ b s', napiTrigger sub sc cfg qmax ev s = .ok b s' → BodyOk cfg ev ((alookup ev cfg.events).getD []) s b s') ∧
+    (∀ e s', napiTrigger sub sc cfg qmax ev s = .err e s' → BodyErr cfg ev ((alookup ev cfg.events).getD []) s e s') := by
+  generalize hts : (alookup ev cfg.events).getD [] = ts
+  unfold napiTrigger
+  simp only []
+  generalize hs1 : ((({ s with nextTag := s.nextTag + 1 } : NSt).emit (.api 0 s.nextTag 0 ev)).emitG
+      (.api s.nextTag ev)) = s1
+  have q01 : Adds ts [] s s1 := by
+    subst hs1; exact ⟨[.api s.nextTag ev], rfl, by intro acc; simp [sOffers]⟩
+  have hconf : s1.conf = s.conf := by subst hs1; rfl
+  have hqueue : s1.queue = [] := by subst hs1; exact hidle
+  have hmp : nmachineProcess sub sc cfg qmax ev s.nextTag s1 = ntriggerEvent sub sc cfg ⟨0, s.nextTag⟩ ev s1 := by
+    simp [nmachineProcess, hq, hqueue]
+  rw [hmp]
+  have hconf0 : ({ s1 with result := none } : NSt).conf = s.conf := hconf
+  have hbody := triggerEventBody_p5 sub sc cfg hR hC ⟨0, s.nextTag⟩ ev hno { s1 with result := none }
+    (by rw [hconf0]; exact hlen) (by rw [hconf0]; exact hcok) rfl
+  rw [hts] at hbody
+  have hte := ntriggerEvent_p5 (ts := ts) sub sc cfg hC hex ⟨0, s.nextTag⟩ ev s1
+  have q10 : Adds ts [] s ({ s1 with result := none } : NSt) := q01.sil_r (Adds.of_glog rfl)
+  cases hn : ntriggerEvent sub sc cfg ⟨0, s.nextTag⟩ ev s1 with
+  | oof => constructor <;> intro _ _ h <;> cases h
+  | ok b2 s2 =>
+    simp only []
+    constructor
+    · intro b s' h
+      simp only [Res.ok.injEq] at h
+      obtain ⟨rfl, rfl⟩ := h
+      obtain ⟨sb, hb, q, hc⟩ := hte.1 b2 s2 hn
+      obtain ⟨offs, ha, h1, h2⟩ := hbody.1 b2 sb hb
+      have qr : Adds ts [] s2 ({ ((s2.emit (.ret s.nextTag b2)).emitG (.ret s.nextTag b2)) with result := s.result } : NSt) :=
+        ⟨[.ret s.nextTag b2], rfl, by intro acc; simp [sOffers]⟩
+      refine ⟨offs, ((q10.sil_l ha).sil_r q).sil_r qr, h1, ?_⟩
+      intro hl
+      obtain ⟨c1, c2⟩ := h2 hl
+      rw [hconf0] at c1 c2
+      exact ⟨c1, show s2.conf = s.conf from hc.trans c2⟩
+    · intro _ _ h; cases h
+  | err e2 s2 =>
+    simp only []
+    constructor
+    · intro _ _ h; cases h
+    · intro e s' h
+      simp only [Res.err.injEq] at h
+      obtain ⟨rfl, rfl⟩ := h
+      obtain ⟨sb, hb, q, hc⟩ := hte.2 e2 s2 hn
+      obtain ⟨offs, ha, h2⟩ := hbody.2 e2 sb hb
+      have qr : Adds ts [] s2 ({ ((s2.emit (.raised s.nextTag e2)).emitG (.raised s.nextTag e2)) with result := s.result } : NSt) :=
+        ⟨[.raised s.nextTag e2], rfl, by intro acc; simp [sOffers]⟩
+      refine ⟨offs, ((q10.sil_l ha).sil_r q).sil_r qr, ?_⟩
+      intro hl
+      obtain ⟨c1, c2⟩ := h2 hl
+      rw [hconf0] at c1 c2
+      exact ⟨c1, show s2.conf = s.conf from hc.trans c2⟩
+
+end
+
+end Pass2
+
+/-- **P5 for machine-level declarations**: what one trigger call on an unqueued machine returns.  If the event was
+offered to some state, the call returns whether the LAST offered state executed a transition (so "True iff some
+transition executed" holds exactly when no state is offered and blocked after an execution); if it was offered to
+nobody, the outcome is what `_check_event_result` decides from the state value (`cerLoop`): False / MachineError /
+AttributeError (or ValueError on nested lists) -/
+theorem C03_P5_global_only (cfg : NCfg) (sub : NSub) (sc : Script) (hR : NoRaise sc) (hC : NoCmds sc)
+    (hq : cfg.queued = false) (hno : cfg.states.noEvents = true) (hex : cfg.onException = [])
+    (qmax ev : Nat) (s : NSt) (hlen : s.conf.len = 1) (hcok : ConfOK cfg.states s.conf = true) (hidle : s.queue = []) :
+    (∀ b s', napiTrigger sub sc cfg qmax ev s = .ok b s' →
+      ∃ seg, s'.glog = s.glog ++ seg ∧
+        (match (sOffers ((alookup ev cfg.events).getD []) seg []).getLast? with
+          | some o => b = o.executed
+          | none => cerLoop cfg ev (buildStateList [] s.conf).listify = .ok b ∧ s'.conf = s.conf)) ∧
+    (∀ e s', napiTrigger sub sc cfg qmax ev s = .err e s' →
+      ∃ seg, s'.glog = s.glog ++ seg ∧
+        ((sOffers ((alookup ev cfg.events).getD []) seg []) = [] →
+          cerLoop cfg ev (buildStateList [] s.conf).listify = .err e ∧ s'.conf = s.conf)) := by
+  obtain ⟨hok, herr⟩ := Pass2.napiTrigger_p5 sub sc cfg hR hC hq hno hex qmax ev s hlen hcok hidle
+  constructor
+  · intro b s' h
+    obtain ⟨offs, ⟨seg, e1, hs⟩, h1, h2⟩ := hok b s' h
+    refine ⟨seg, e1, ?_⟩
+    rw [hs [], List.nil_append]
+    cases hl : offs.getLast? with
+    | some o => exact h1 o hl
+    | none => exact h2 hl
+  · intro e s' h
+    obtain ⟨offs, ⟨seg, e1, hs⟩, h2⟩ := herr e s' h
+    refine ⟨seg, e1, ?_⟩
+    rw [hs [], List.nil_append]
+    exact h2
+
 end TM
